@@ -26,6 +26,9 @@ def floordiv(a, b):
 class ExprMixin:
     # ---------------------------------------------------------------- names
     def lookup(self, name, fr):
+        gs = getattr(self.path, 'gseq', None)
+        if gs and name in gs:
+            return gs[name]
         ef = getattr(self.cur_contract, 'effects', None) or {}
         if name in ef and name not in fr.env:
             return Builtin('effect:' + name, lambda a, k, n, f, name=name: self.do_effect(name, a, k, ef[name], n, f))
@@ -495,8 +498,8 @@ class ExprMixin:
         except TypeError:
             return False
         s = a2.sort()
-        if s == z3.BoolSort() or s.name() in self.zs.enum_by_sort:
-            return a2 == b2
+        if s == z3.BoolSort() or s.name() in self.zs.enum_by_sort or s == objs:
+            return a2 == b2          # (two raw terms of the opaque-object sort: elements of ghost / symbolic sequences)
         raise Unsupported(f'is on sort {s}')
 
     def contains(self, cont, x, node=None):
@@ -784,6 +787,7 @@ class ExprMixin:
     def do_effect(self, name, args, kwargs, may_raise, node, fr):
         """a call that reaches the outside world: an event of the ghost trace; it may fail with the listed exceptions"""
         self.path.trace.append(Event((name,) + tuple(args), kwargs))
+        self.ghost_record(name, self.path.trace[-1], False)
         ret = None
         if isinstance(may_raise, dict):
             ret, may_raise = may_raise.get('returns'), may_raise.get('raises', [])
@@ -795,8 +799,24 @@ class ExprMixin:
         if ret is not None:
             rv = self.sym_of_sort(ret, 'r_' + name, fr)
             self.path.trace[-1] = Event(tuple(self.path.trace[-1]) + (rv,), self.path.trace[-1].kw)      # the returned value is the last component of the event
+            self.ghost_record(name, self.path.trace[-1], True)
             return rv
         return None
+
+    def ghost_record(self, name, ev, returned):
+        """ghost sequences declared by the contract (Contract.ghost_seqs): the chosen component of every event of the named kind
+        is appended to a SYMBOLIC sequence, which loop invariants may speak about (it is havocked with the loop state)"""
+        gs = getattr(self.path, 'gseq', None)
+        if not gs:
+            return
+        for gname, (evname, idx, S) in (getattr(self.path, 'gseq_decl', None) or {}).items():
+            if evname != name or (idx < 0) != returned:
+                continue
+            v = ev[idx]
+            t = self.unwrap_term(v)
+            if not z3.is_expr(t):
+                t = self.zs.lift(t, self.zs.zsort(S))
+            gs[gname] = z3.Concat(gs[gname], z3.Unit(t))
 
     def obj_attr(self, base, attr, node):
         om = getattr(self.cur_contract, 'opaque', None) or {}
